@@ -1,0 +1,7 @@
+//go:build !verif
+
+package query
+
+func verifPoint(_ string, _ string) {}
+
+func verifPointN(_ string, _ int) {}
